@@ -79,7 +79,6 @@ EQUIVALENT = {
  "c05-halfcell-lat": "j is obtained by rounding, so |lat - ref| <= d_lat/2 holds by construction: the half-cell test is redundant and widening it changes nothing",
  "c06-no-50km-gate": "inside the domain (<= 700 kt, truthful or locally exchanged timestamps) every candidate position that reaches the gate is already correct; the gate is purely defensive",
  "c09-straddle": "a pair straddling the end of the frame is not collapsed, the frame is still yielded intact and the stray 0x1A is discarded by the resynchronisation branch: same output",
- "c15-lon-half": "only longitude offsets beyond +6.7109 deg (outside the decodable window, hence outside the property's +-6.7 deg) change",
  "c16-default-port": "the default port only matters for a specification without a port, which is not 'well-formed' in the property's sense (host, port ...)",
  "c17-quit-in-search": "the arm is shadowed by (true, Char(c)) above it: unreachable",
  "c14-stride-start": "shifts every registration of one German block by one address: still total, injective and German (C14 does not state which registration an address gets)",
